@@ -518,6 +518,9 @@ def check_loop_protocol(rep, rule, prog, fn, engine):
             fors = [(l2, i2) for l2, i2 in summ.loops.items() if i2.get("kind") == "for" and (i2.get("node") or {}).get("k") not in ("mcall", "call") and
                     any(s.kind == "for" and s.node is i2.get("node") and lid in s.loops for s in summ.sites)]      # iterator adapters are no loops
             upd_flag = vars_.get(flag, (None, None))[1]
+            if upd_flag is not None:
+                # the body only runs while the flag is false
+                upd_flag = nz(terms.replace(upd_flag, ("loopvar", lid, flag), ("lit", False)))
             if not fors and upd_flag is not None and first_nonempty_update(nz(("not", upd_flag)), fn, nz) is not None:
                 # `flag = vars.map(update).find(non-empty).is_none()`: the sweep is an iterator pipeline, the flag says that
                 # no variable yields a non-empty update
